@@ -50,6 +50,9 @@ def world():
     w['trun_flags'] = z3.Int('trun_flags')
     w['has_event'], w['traf_modified_by_drm'] = z3.Bool('has_event'), z3.Bool('traf_modified_by_drm')
     w['stored_base_data_offset'] = z3.Int('stored_base_data_offset')
+    for nm in ('rep_encrypted', 'seg_is_init', 'seg_is_number', 'no_timing_reference', 'bad_options', 'options_encrypted'):
+        w[nm] = z3.Bool(nm)
+    w['seg_value'] = z3.Int('seg_value')
     w['order_is'] = lambda x, *names: z3.BoolVal(isinstance(x, PyList) and list(x.items) == list(names))
     w['Mof'] = z3.Function('Mof', INT, INT)      # segment index get_segment_index returns (skolem function of its result)
     w['Lof'] = z3.Function('Lof', INT, INT)      # loop index get_segment_index ends in (skolem function of its ghost L)
@@ -556,6 +559,85 @@ def gms_flags():
 
 GMS_FLAGS = gms_flags()
 
+
+# ----------------------------------------------------------------------------- LiveMedia.get: request checks (C16 / C01)
+class SegmentText:
+    """the <segment_num> path component: the text 'init', a decimal number, or something else"""
+
+    def __init__(self, is_init, is_number, value):
+        self.is_init, self.is_number, self.value = is_init, is_number, value
+
+    def compare(self, eng, op, other, swapped):
+        if other == 'init' and isinstance(op, (ast.Eq, ast.NotEq)):
+            return z3.Not(self.is_init) if isinstance(op, ast.NotEq) else self.is_init
+        raise Unsupported('segment text comparison')
+
+    def to_int(self, eng, base):
+        if not eng.branch(self.is_number):
+            raise PyRaise('ValueError')
+        return self.value
+
+
+def live_get_contract(content_type, by_time=False):
+    def env(w):
+        e = env0(w)
+        if by_time:
+            e['segment_num'], e['segment_time'] = None, z3.Int('seg_value')
+        return e
+
+    def env0(w):
+        rep = Obj('Representation', {'encrypted': z3.Bool('rep_encrypted')})
+        return {'self': Obj('LiveMedia', {}), 'mode': 'live', 'stream': Opaque('stream'), 'filename': Opaque('file'), 'ext': 'mp4',
+                'segment_num': SegmentText(z3.Bool('seg_is_init'), z3.Bool('seg_is_number'), z3.Int('seg_value')),
+                'segment_time': None,
+                'current_media_file': Obj('MediaFile', {'representation': rep, 'content_type': content_type}),
+                'current_stream': Obj('Stream', {'timing_reference': Opt(z3.Bool('no_timing_reference'), Obj('Ref', {}))})}
+
+    def calculate_options(eng, e, a, kw):
+        if eng.branch(z3.Bool('bad_options')):
+            raise PyRaise('ValueError')
+        return Obj('OptionsContainer', {'encrypted': z3.Bool('options_encrypted'), 'segmentTimeline': None})
+
+    def options_update(eng, e, a, kw):
+        eng.eval(e.func.value).f.update(kw)
+
+    def make_response(eng, e, a, kw):
+        return Obj('Response', {'status': a[1], 'what': 'error'})
+    known_type = content_type in ('audio', 'video', 'text')
+    pre = 'not bad_options and not no_timing_reference and not (rep_encrypted and not options_encrypted)'
+    ens = [('bad_options_400', 'result.status == 400 if bad_options else True'),
+           ('no_timing_reference_404', 'result.status == 404 if (not bad_options and no_timing_reference) else True'),
+           ('encrypted_without_drm_404', 'result.status == 404 if (not bad_options and not no_timing_reference and rep_encrypted '
+                                         'and not options_encrypted) else True')]
+    if not known_type:
+        ens.append(('unsupported_content_type_404', f'result.status == 404 if ({pre}) else True'))
+    elif by_time:
+        ens += [('media_segment_by_time', f"(result.what == 'media' and is_none(result.args['seg_num']) and result.args['seg_time'] == seg_value "
+                                          f"and result.args['mode'] == 'live' and result.args['options'].segmentTimeline == True) "
+                                          f'if ({pre}) else True')]
+    else:
+        ens += [('init_segment', f"(result.what == 'init' and result.mode == 'live') if ({pre} and seg_is_init) else True"),
+                ('bad_number_404', f'result.status == 404 if ({pre} and not seg_is_init and not seg_is_number) else True'),
+                ('media_segment', f"(result.what == 'media' and result.args['seg_num'] == seg_value and is_none(result.args['seg_time']) "
+                                  f"and result.args['mode'] == 'live' and result.args['options'].segmentTimeline == False) "
+                                  f'if ({pre} and not seg_is_init and seg_is_number) else True')]
+    return Contract(
+        key=f'{MRQ}:LiveMedia.get', variant=content_type + ('-time' if by_time else ''), props=['C16', 'C01'], env=env,
+        models={'self.calculate_options': calculate_options, 'options.update': options_update,
+                'flask.make_response': make_response, 'attr:flask.request.args': lambda eng: Opaque('args'),
+                'html.escape': lambda eng, e, a, kw: Opaque('escaped'),
+                'self.generate_init_segment': lambda eng, e, a, kw: Obj('Response', {'status': 200, 'what': 'init', 'mode': a[1]}),
+                'self.generate_media_segment': lambda eng, e, a, kw: Obj('Response', {'status': 200, 'what': 'media', 'args': kw})},
+        ensures=ens,
+        canaries=['result.status == 404'],
+        witness_terms=lambda w: (lambda ev: dict({k: ev(z3.Bool(k)) for k in (
+            'rep_encrypted', 'seg_is_init', 'seg_is_number', 'no_timing_reference', 'bad_options', 'options_encrypted')},
+            seg_value=ev(z3.Int('seg_value')))),
+    )
+
+
+LIVE_GET = [live_get_contract('video'), live_get_contract('text'), live_get_contract('image'), live_get_contract('audio', by_time=True)]
+
 GMS = [gms('live', 'number', 'audio'), gms('live', 'time', 'video'), gms('vod', 'number', 'video', with_sidx=False),
        gms('vod', 'time', 'audio'), gms('live', 'time', 'audio', has_tfdt=False), gms('vod', 'number', 'audio', has_tfdt=False)]
 
@@ -877,7 +959,7 @@ GROUP = Group(
     world=world,
     contracts=[MEDIA_DURATION_USING_TIMESCALE, GET_SEGMENT_INDEX, CALC_SEGMENT_FROM_TIMECODE, TIMESCALE_TO_TIMEDELTA,
                FL_LIVE, FL_VOD, SNT_LIVE_NUMBER, SNT_LIVE_TIME, SNT_VOD_NUMBER, SNT_VOD_TIME] + MSI +
-              [GENERATE_SEGMENT_LIST, timeline('live'), timeline('vod')] + GMS + [GMS_FLAGS],
+              [GENERATE_SEGMENT_LIST, timeline('live'), timeline('vod')] + GMS + [GMS_FLAGS] + LIVE_GET,
     lemmas=[
         Lemma('time_exact', ['C02'], lemma_time_exact),
         Lemma('prefix_step', ['C02'], lemma_prefix_monotone),
